@@ -22,6 +22,8 @@ from sa import core
 from sa import effects
 from sa import pat
 from sa import pycfg
+from sa import rules_qn
+from sa import rules_shared
 from sa import setalg
 from sa import tpl
 from sa.formula import atom, implies
@@ -122,6 +124,10 @@ def check(model, rep, tier):
   rep.rule('OP-ROLE', 'operator call argument roles and counts', floor=20)
   rep.rule('NOUTS', 'output count and ordering', floor=3)
   rep.rule('OPTS', 'loop options and directives', floor=6)
+  rep.rule('SHARED-MUT', 'module-level mutable objects are never mutated through '
+           'an alias (directive tables / option nodes stay per loop)', floor=2)
+  rep.rule('QN-SUPPORT', 'support_set is the structural fold over a composite '
+           'name (decides which composites enter the state tuples)', floor=3)
 
   cls = model.cls(CF, 'ControlFlowTransformer')
   sites = tpl.find_sites(model, [CF])
@@ -524,3 +530,11 @@ def ldu(load_v, name):
             'OPTS', '%s:preserved_annos' % pres.site,
             'template replacement must preserve DIRECTIVES and EXTRA_LOOP_TEST',
             line=pres.node.lineno)
+
+  # ---------------------------------------------------------------- SHARED-MUT
+  rules_shared.selftest()
+  rels = sorted(m.rel for m in model.modules.values() if m.rel.startswith(
+      ('malt/converters/', 'malt/core/', 'malt/lang/')))
+  rules_shared.check(model, rep, 'SHARED-MUT', rels)
+  # ---------------------------------------------------------------- QN-SUPPORT
+  rules_qn.support(model, rep, 'QN-SUPPORT')
